@@ -125,10 +125,7 @@ func JSONGetNaturalLanguageField(val *fastjson.Value, prop string) NaturalLangua
 		case fastjson.TypeObject:
 			loadMap(v)
 		case fastjson.TypeString:
-			l := LangRefValue{}
-			if err := l.UnmarshalJSON(v.GetStringBytes()); err == nil {
-				n = append(n, l)
-			}
+			n = append(n, LangRefValue{Ref: NilLangRef, Value: append(Content{}, v.GetStringBytes()...)})
 		}
 	}
 	if vMap != nil && vMap.Type() == fastjson.TypeObject {
